@@ -102,6 +102,11 @@ fn generate(_corpus: &Corpus, tier: Tier, run: u64, rng: &mut Rng) -> Option<Cas
             "chunks": chunks,
             "compile_fault": rng.below(5),
             "twice": run % 8 == 0,
+            // how the input bytes arrive: LF or CRLF line ends, a last line cut off by end-of-input
+            "crlf": rng.chance(1, 4),
+            "no_final_newline": rng.chance(1, 4),
+            // -k: say when the story has ended
+            "keep_open": rng.chance(1, 3),
         }),
         hash_seed: rng.next_u64(),
         story_seed: rng.below(100) as i32,
@@ -115,6 +120,11 @@ enum Shown {
     Text(String),
     Tags(Vec<String>),
     Choices(Vec<(String, Vec<String>)>),
+    /// protocol markers: a request for input, end of input seen, end of story (-k)
+    Prompt,
+    Close,
+    End,
+    Cmd(String),
 }
 
 enum Parsed {
@@ -156,11 +166,12 @@ struct Reference {
     fuel: bool,
     aborted: bool,
     unknown_diverts: usize,
+    ended: bool,
 }
 
 /// The library driven by the same input: the reference transcript.
-fn reference(case: &Case, stdin: &[String]) -> Reference {
-    let mut r = Reference { shown: vec![], plain_stdout: String::new(), consumed: 0, eof_at_prompt: false, fuel: false, aborted: false, unknown_diverts: 0 };
+fn reference(case: &Case, stdin: &[String], keep_open: bool) -> Reference {
+    let mut r = Reference { shown: vec![], plain_stdout: String::new(), consumed: 0, eof_at_prompt: false, fuel: false, aborted: false, unknown_diverts: 0, ended: false };
     let cfg = HostCfg { handler: true, fallbacks: true, bindings: vec![], observers: vec![], ext_ret: 0 };
     let mut h = match Host::new(&case.program, &cfg) {
         Ok(h) => h,
@@ -201,6 +212,11 @@ fn reference(case: &Case, stdin: &[String]) -> Reference {
             None => vec![],
         };
         if choices.is_empty() {
+            if keep_open {
+                r.plain_stdout.push_str("--- End of story ---\n");
+                r.shown.push(Shown::End);
+                r.ended = true;
+            }
             return r;
         }
         r.shown.push(Shown::Choices(choices.clone()));
@@ -213,8 +229,10 @@ fn reference(case: &Case, stdin: &[String]) -> Reference {
         }
         loop {
             r.plain_stdout.push_str("?> ");
+            r.shown.push(Shown::Prompt);
             if next >= stdin.len() {
                 r.eof_at_prompt = true;
+                r.shown.push(Shown::Close);
                 r.plain_stdout.push_str("<User input stream closed.>\n");
                 return r;
             }
@@ -251,6 +269,7 @@ fn reference(case: &Case, stdin: &[String]) -> Reference {
                 Parsed::Help => {
                     r.plain_stdout.push_str(HELP);
                     r.plain_stdout.push('\n');
+                    r.shown.push(Shown::Cmd(HELP.to_string()));
                 }
                 Parsed::Exit => return r,
                 Parsed::Unknown => {}
@@ -394,6 +413,14 @@ fn parse_json_stdout(out: &[u8], res: &mut CaseResult, at: &str) -> Option<Vec<S
                     })
                     .collect(),
             ));
+        } else if let Some(c) = obj.get("cmdOutput").and_then(|t| t.as_str()) {
+            shown.push(Shown::Cmd(c.to_string()));
+        } else if obj.get("needInput") == Some(&J::Bool(true)) {
+            shown.push(Shown::Prompt);
+        } else if obj.get("close") == Some(&J::Bool(true)) {
+            shown.push(Shown::Close);
+        } else if obj.get("end") == Some(&J::Bool(true)) {
+            shown.push(Shown::End);
         }
     }
     Some(shown)
@@ -435,16 +462,24 @@ fn run(case: &Case, dir: &std::path::Path, res: &mut CaseResult) -> Option<Strin
         std::fs::write(dir.join("story.ink"), &src).ok()?;
         "story.ink"
     };
-    let reference = reference(case, &stdin);
+    let keep_open = p["keep_open"].as_bool().unwrap_or(false);
+    let reference = reference(case, &stdin, keep_open);
     if reference.fuel {
         return Some("fuel".into());
     }
     let mut args: Vec<String> = Vec::new();
-    args.push(if json_mode { "-pj".into() } else { "-p".into() });
+    args.push(format!("-p{}{}", if json_mode { "j" } else { "" }, if keep_open { "k" } else { "" }));
     args.push(file.to_string());
-    let mut input = stdin.join("\n");
-    if !stdin.is_empty() {
-        input.push('\n');
+    let eol = if p["crlf"].as_bool() == Some(true) { "\r\n" } else { "\n" };
+    let mut input = stdin.join(eol);
+    if !stdin.is_empty() && p["no_final_newline"].as_bool() != Some(true) {
+        input.push_str(eol);
+    }
+    if eol == "\r\n" {
+        res.stats.inc("fault.input.crlf");
+    }
+    if !input.is_empty() && !input.ends_with('\n') {
+        res.stats.inc("fault.input.no_final_newline");
     }
     let at = format!("rinklecate {} < {:?}", args.join(" "), stdin);
     let out = run_child(&args, input.as_bytes(), chunks, dir)?;
